@@ -59,28 +59,81 @@ func Exec(ops []hx.T) (obs []any, nontrivial bool) {
 	channel.SetPushImpl(rec)
 	svc := channel.NewChannelService(nil)
 	frontNum := map[string]int64{}
+	// channel tokens >= 1000 are temporary channels: created with AllocTempChannel (the real
+	// name is chosen by the service), deleted with FreeTempChannel
+	temp := map[int64]*channel.Channel{}
+	chName := func(c int64) string {
+		if c >= 1000 {
+			if t := temp[c]; t != nil {
+				return t.GetName()
+			}
+			return fmt.Sprintf("_temp_never_allocated_%d", c)
+		}
+		return name("ch", c)
+	}
+	ensure := func(c int64) {
+		if c >= 1000 && temp[c] == nil {
+			temp[c] = svc.AllocTempChannel()
+		}
+	}
 	for _, o := range ops {
 		switch o.Name {
 		case "OAddChannel":
-			svc.AddChannel(name("ch", o.Int(0)))
+			if o.Int(0) >= 1000 {
+				ensure(o.Int(0))
+			} else {
+				svc.AddChannel(name("ch", o.Int(0)))
+			}
 			obs = append(obs, "BUnit")
 		case "OAdd":
 			f := name("front-", o.Int(1))
 			frontNum[f] = o.Int(1)
-			svc.AddToChannel(name("ch", o.Int(0)), f, uint32(o.Int(2)))
+			ensure(o.Int(0))
+			svc.AddToChannel(chName(o.Int(0)), f, uint32(o.Int(2)))
 			obs = append(obs, "BUnit")
 		case "OLeave":
 			f := name("front-", o.Int(1))
 			frontNum[f] = o.Int(1)
-			svc.LeaveFromChannel(name("ch", o.Int(0)), f, uint32(o.Int(2)))
+			svc.LeaveFromChannel(chName(o.Int(0)), f, uint32(o.Int(2)))
 			obs = append(obs, "BUnit")
 		case "ODelete":
-			svc.DeleteChannel(name("ch", o.Int(0)))
+			if t := temp[o.Int(0)]; o.Int(0) >= 1000 && t != nil {
+				svc.FreeTempChannel(t)
+				delete(temp, o.Int(0))
+			} else {
+				svc.DeleteChannel(chName(o.Int(0)))
+			}
 			obs = append(obs, "BUnit")
+		case "ODirect":
+			f := name("front-", o.Int(0))
+			frontNum[f] = o.Int(0)
+			ids := o.Ints(1)
+			rec.pushes = nil
+			called := 0
+			cb := func(error, interface{}) { called++ }
+			if len(ids) == 1 {
+				svc.PushMessageById(nil, f, uint32(ids[0]), "route.x", "payload", cb)
+			} else {
+				u := make([]uint32, len(ids))
+				for i, v := range ids {
+					u[i] = uint32(v)
+				}
+				svc.PushMessageByIds(nil, f, u, "route.x", "payload", cb)
+			}
+			l := []any{}
+			for _, p := range rec.pushes {
+				l = append(l, hx.Pair{A: frontNum[p.front], B: hx.Norm(p.ids)})
+			}
+			if called != 1 {
+				obs = append(obs, "BNoChan") // completion function must run exactly once
+			} else {
+				obs = append(obs, hx.C("BPush", l))
+			}
+			nontrivial = nontrivial || len(ids) > 0
 		case "OGet":
-			obs = append(obs, hx.C("BBool", svc.GetChannel(name("ch", o.Int(0))) != nil))
+			obs = append(obs, hx.C("BBool", svc.GetChannel(chName(o.Int(0))) != nil))
 		case "OPush":
-			ch := svc.GetChannel(name("ch", o.Int(0)))
+			ch := svc.GetChannel(chName(o.Int(0)))
 			if ch == nil {
 				obs = append(obs, "BNoChan")
 				break
@@ -169,6 +222,10 @@ func gen(cfg *hx.Config, maxLen int) ([]hx.T, []string) {
 	tags := map[string]bool{}
 	for len(ops) < n {
 		c, f := 1+r.Int63n(nch), 1+r.Int63n(nfr)
+		if r.Intn(6) == 0 {
+			c += 999 // a temporary channel
+			tags["temp-channel"] = true
+		}
 		k := [2]int64{c, f}
 		switch p := r.Intn(100); {
 		case p < 40:
@@ -220,8 +277,15 @@ func gen(cfg *hx.Config, maxLen int) ([]hx.T, []string) {
 			ops = append(ops, hx.C("ODelete", c))
 		case p < 91:
 			ops = append(ops, hx.C("OAddChannel", c))
-		case p < 95:
+		case p < 94:
 			ops = append(ops, hx.C("OGet", c))
+		case p < 96:
+			ids := []int64{}
+			for j := r.Intn(4); j >= 0; j-- {
+				ids = append(ids, 1+r.Int63n(nid))
+			}
+			tags["direct"] = true
+			ops = append(ops, hx.C("ODirect", f, ids))
 		default:
 			nl := r.Intn(6)
 			live := []int64{}
